@@ -93,6 +93,7 @@ class Driver:
         self.I = interner
         self.pfile = persistence_file
         self.raising_cb = raising_cb
+        self.mqtt = mqtt
         self.cb_log = []
         self.events = []
         self.ops = []
@@ -132,8 +133,33 @@ class Driver:
         kw = {"event_callback": self._callback, "protocol_version": self.version}
         if self.pfile:
             kw.update(persistence=True, persistence_file=self.pfile)
-        cls = my.BaseSyncGateway if self.flavour == "sync" else my.BaseAsyncGateway
-        self.gw = cls(self.tr, **kw)
+        if self.mqtt:
+            from mysensors import gateway_mqtt
+            cls = gateway_mqtt.MQTTGateway if self.flavour == "sync" else gateway_mqtt.AsyncMQTTGateway
+            self.pubs, self.subs = [], []
+            drv = self
+
+            def pub(topic, payload, qos, retain):
+                drv.pubs.append((topic, payload, qos, retain))
+                if drv.raising_cb:
+                    raise RuntimeError("publish callback raises (harness)")
+
+            def sub(topic, callback, qos):
+                drv.subs.append((topic, qos))
+                if drv.raising_cb:
+                    raise RuntimeError("subscribe callback raises (harness)")
+            self.gw = cls(pub, sub, in_prefix="mys-in", out_prefix="mys-out", **kw)
+            real = self.gw.tasks.transport
+            orig_send = real.send
+
+            def send(message):
+                if message:
+                    drv.tr.log.append(message)     # what the gateway handed to transport.send
+                orig_send(message)
+            real.send = send
+        else:
+            cls = my.BaseSyncGateway if self.flavour == "sync" else my.BaseAsyncGateway
+            self.gw = cls(self.tr, **kw)
         FakeTimer.armed = []
         self.pers_started = False
 
@@ -344,6 +370,22 @@ class Driver:
               "exc": exc_name, "keystr": key_as_str}
         return self._emit_event(ev, raised)
 
+    def set_child_raw(self, n, c, t, value):
+        """set_child_value with an unusable value type (not an integer): must be refused or ignored, never
+        accepted; recorded as a call that may only be refused / have no effect (spec: value type -1)."""
+        import voluptuous as vol
+        exc_name = "none"
+        self.ops.append(["set_child_raw", n, c, repr(t), repr(value)])
+        try:
+            self.gw.set_child_value(n, c, t, value)
+        except (ValueError, vol.Invalid):
+            exc_name = "refused"
+        except Exception as exc:  # pylint: disable=broad-except
+            exc_name = "raised:" + type(exc).__name__
+        ev = {"a": "SetChild", "n": n, "c": c, "t": -1, "v": describe(str(value), self.I), "ack": 0,
+              "exc": exc_name, "keystr": False}
+        return self._emit_event(ev, None)
+
     def update_fw(self, nids, ftype, fver, image_path=None):
         raised = None
         self.ops.append(["update_fw", nids, ftype, fver, image_path])
@@ -398,13 +440,13 @@ class Driver:
 
     def trace(self, meta=None):
         return {"cfg": {"ver": self.version, "flavour": self.flavour, "raising_cb": self.raising_cb,
-                        "persist": bool(self.pfile), **(meta or {})}, "ev": self.events, "ops": self.ops}
+                        "persist": bool(self.pfile), "mqtt": self.mqtt, **(meta or {})}, "ev": self.events, "ops": self.ops}
 
 
 def replay_ops(cfg, ops, persistence_file=None):
     """Re-execute a recorded history against the current tree; returns the new trace."""
     drv = Driver(cfg["ver"], cfg["flavour"], Interner(), persistence_file=persistence_file,
-                 raising_cb=cfg.get("raising_cb", False))
+                 raising_cb=cfg.get("raising_cb", False), mqtt=cfg.get("mqtt", False))
     for op in ops:
         k = op[0]
         if k == "recv":
